@@ -572,7 +572,6 @@ func (s *sender) enterFastRecovery() {
 func (s *sender) leaveFastRecovery() {
 	s.fr.active = false
 	s.fr.first = 0
-	s.fr.last = s.sndNxt - 1
 	s.fr.maxCwnd = 0
 	s.dupAckCount = 0
 
